@@ -287,6 +287,41 @@ theorem decode_encode (o : Option Opts) (c : CredIn) (cl : Claim) (h : toCoreCla
     · show cl.i2 = ia; rw [m4]; simp [this]
     · show cl.v2 = va; rw [m6]; simp [this]
 
+/-- **The claim determines its inputs** ("bit-for-bit encodes"): two successful builds that yield the same claim had
+    the same schema hash, subject position and identifier, expiration (presence and value), updatable flag, version and
+    nonce (within their widths) and the same root position; and when neither schema carries a serialization attribute,
+    the same root. -/
+theorem claim_inj (o o' : Option Opts) (c c' : CredIn) (cl : Claim)
+    (h : toCoreClaim o c = .ok cl) (h' : toCoreClaim o' c' = .ok cl) :
+    ∃ tp tp' nonM nonM', findCredentialType c.subjectTypes c.topTypes = .ok tp ∧
+      findCredentialType c'.subjectTypes c'.topTypes = .ok tp' ∧
+      c.schemaOf tp % 2 ^ 128 = c'.schemaOf tp' % 2 ^ 128 ∧
+      subjOf (o.getD defaultOpts) c = subjOf (o'.getD defaultOpts) c' ∧
+      (c.expiration.isSome = true ↔ c'.expiration.isSome = true) ∧
+      ((o.getD defaultOpts).updatable = true ↔ (o'.getD defaultOpts).updatable = true) ∧
+      (o.getD defaultOpts).version % 2 ^ 32 = (o'.getD defaultOpts).version % 2 ^ 32 ∧
+      (o.getD defaultOpts).revNonce % 2 ^ 64 = (o'.getD defaultOpts).revNonce % 2 ^ 64 ∧
+      expUnix c.expiration % 2 ^ 64 = expUnix c'.expiration % 2 ^ 64 ∧
+      idIndexOf (o.getD defaultOpts) c = idIndexOf (o'.getD defaultOpts) c' ∧
+      idValueOf (o.getD defaultOpts) c = idValueOf (o'.getD defaultOpts) c' ∧
+      mrkOf (o.getD defaultOpts) nonM = mrkOf (o'.getD defaultOpts) nonM' ∧
+      (nonM = false → nonM' = false → c.root = c'.root) := by
+  obtain ⟨tp, ia, ib, va, vb, nonM, htp, a1, a2, a3, a4, a5, a6, a7, a8, a9, a10, a11, a12⟩ := decode_encode o c cl h
+  obtain ⟨tp', ia', ib', va', vb', nonM', htp', b1, b2, b3, b4, b5, b6, b7, b8, b9, b10, b11, b12⟩ := decode_encode o' c' cl h'
+  refine ⟨tp, tp', nonM, nonM', htp, htp', by rw [← a1, ← b1], by rw [← a2, ← b2], a3.symm.trans b3, a4.symm.trans b4,
+    by rw [← a6, ← b6], by rw [← a7, ← b7], by rw [← a8, ← b8], by rw [← a9, ← b9], by rw [← a10, ← b10], by rw [← a5, ← b5], ?_⟩
+  intro hn hn'
+  obtain ⟨r1, r2⟩ := a11 hn
+  obtain ⟨s1, s2⟩ := b11 hn'
+  have hm : (decode cl).merklizedFlag = mrkOf (o.getD defaultOpts) nonM := a5
+  -- a schema without serialization attribute always places the root: position 1 (index) or 2 (value)
+  have hpos : (decode cl).merklizedFlag = 1 ∨ (decode cl).merklizedFlag = 2 := by
+    rw [hm]; subst hn; unfold mrkOf
+    by_cases hv : (o.getD defaultOpts).rootPos = "value" <;> simp [hv]
+  rcases hpos with hp | hp
+  · rw [← r1 hp, ← s1 hp]
+  · rw [← r2 hp, ← s2 hp]
+
 /-- asking for a root position with a serialization attribute is an error; so is an unknown position -/
 theorem root_pos_error (opts : Opts) (h : opts.rootPos ≠ "") : ∃ e, effectiveRootPos opts true = .error e := by
   unfold effectiveRootPos; simp [h]
